@@ -199,3 +199,38 @@ def c13i(F, R):
             R.bad("as_type", f"Token::as_type only converts tokens of kind {sorted(guards)}: a character literal is no longer an immediate", loc(c))
         else:
             R.ok("as_type", detail="the whole token goes to TryFrom<Token>", where=loc(c))
+
+
+@rule("C13", "C13.j.comments-count-as-line-ends", floor=3)
+def c13j(F, R):
+    """wherever the decoder asks whether the next token is the end of the line, a comment token gets the same answer as a newline token (a comment is followed by its newline): otherwise adding a comment after a line changes how the statement - an omitted operand, a list of values that continues on the next line - is read"""
+    p = [q for q in F.fns if q.endswith("for riscv_analysis::parser::node::ParserNode>::try_from") and "Peekable" in q]
+    if not p:
+        raise Anchor("decoder ParserNode::try_from not found")
+    f = F.fn(p[0])
+    body = f["hir"]["value"]
+    n = 0
+    def kinds(pat):
+        return {short(v) for k_, v in pat_variants(pat) if k_ == "path" and v and "TokenType" in v}
+    for x in walk(body, pats=False):
+        if x.get("k") == "If":
+            c = x["cond"]
+            while c.get("k") in ("DropTemps", "Use"):
+                c = c["e"]
+            if c.get("k") == "LetExpr":
+                ks = kinds(c["pat"])
+                if "Newline" in ks or "Comment" in ks:
+                    n += 1
+                    if {"Newline", "Comment"} <= ks:
+                        R.ok(f"if-let#{n}", detail="newline and comment alike", where=loc(x))
+                    else:
+                        R.bad(f"if-let#{n}|{'+'.join(sorted(ks))}", f"the decoder tests the next token for {sorted(ks)} only: with a comment at the end of the line the other answer is taken (`.word 1  # first` + `2` on the next line is read differently from the same lines without the comment)", loc(x))
+        if x.get("k") == "Match" and not x.get("src") or (x.get("k") == "Match" and x.get("src") == "Normal"):
+            arms = [(kinds(a["pat"]), a) for a in x["arms"]]
+            allk = set().union(*[k for k, _ in arms]) if arms else set()
+            if "Newline" in allk or "Comment" in allk:
+                n += 1
+                if {"Newline", "Comment"} <= allk:
+                    R.ok(f"match#{n}", detail="newline and comment both have an arm", where=loc(x))
+                else:
+                    R.bad(f"match#{n}|{'+'.join(sorted(allk & {'Newline', 'Comment'}))}", f"a match on the token kind handles {sorted(allk & {'Newline', 'Comment'})} but not the other line end", loc(x))
